@@ -603,6 +603,12 @@ class CallMixin:
         """Callee is a symbolic value: enumerate the known callables it may equal (model-guided), the remainder is
         a user call."""
         t = fv.term
+        if self.config.get('user_results_foreign') and getattr(fv, 'origin', None) is not None:
+            rc = fv.origin[0]
+            if isinstance(rc, SV) and rc.cls is None and self.entails(
+                    st, AND(is_ref(rc.term), z3.Select(st.CL, r_of(rc.term)) >= I(self.index.first_free_id)), 1500):
+                # A-FOREIGN: a method of an object of a user-defined class is unknown code (not one of plumpy's functions)
+                return self.user_call(st, fv, args, node)
         cur = st
         found = []
         LIMIT = 8
